@@ -77,6 +77,14 @@ def encode_value(value, vident):
     return dict(pt=pt, re=f64bits(re), im=f64bits(im), s="", nan=nan, obj=vident(value) if nan else 0)
 
 
+def _type_name(e):
+    """static type the package reports for an expression (the reference type when it is used as a like)"""
+    try:
+        return str(e.get_type())
+    except Exception as ex:  # noqa
+        return "<%s:%s>" % (e.kind, type(ex).__name__)
+
+
 def observe(fa, r, ident, vident):
     from functional_algorithms.expr import Expr
     o = dict(kind=r.kind, name="", ty="", ops=[], val=dict(pt="", re=[], im=[], s="", nan=False, obj=0), like_ty="")
@@ -89,7 +97,7 @@ def observe(fa, r, ident, vident):
             v = v.operands[0] if v.kind == "constant" else "<alt-expr>"
         o["val"] = encode_value(v, vident)
         like = r.operands[1]
-        o["like_ty"] = str(like.operands[1]) if like.kind == "symbol" else "<%s>" % like.kind
+        o["like_ty"] = str(like.operands[1]) if like.kind == "symbol" else _type_name(like)
     else:
         o["ops"] = [ident(x) for x in r.operands]
     return o
@@ -119,6 +127,22 @@ def replay_history(fa, hist, events, beh, ctx_kwargs=None):
                 ev["val"] = encode_value(value, vident)
                 ev["like"] = ident(like)
                 r = ctx.constant(value, like)
+            elif "rawops" in req:
+                # operands given as Python numbers are converted to constants by the package (expr.normalize):
+                # each implicit constant is logged as its own construction (value, like = the first expression
+                # operand) BEFORE the operation, with the object found at that operand position as its result
+                ops = [by_model[o[1]] if o[0] == "id" else o[1] for o in req["rawops"]]
+                ref = next(o for o in ops if hasattr(o, "kind"))
+                r = getattr(ctx, kind)(*ops)
+                for i, o in enumerate(req["rawops"]):
+                    if o[0] == "raw":
+                        c = r.operands[i]
+                        cev = dict(id=len(events), beh=beh, op="Construct", kind="constant", name="", ty="", ops=[], like=ident(ref),
+                                   val=encode_value(o[1], vident), res=ident(c), raised="", model_res=0, implicit=True)
+                        cev["obs"] = observe(fa, c, ident, vident)
+                        events.append(cev)
+                ev["id"] = len(events)
+                ev["ops"] = [ident(x) for x in r.operands]
             else:
                 ops = [by_model[m] for m in req["ops"]]
                 ev["ops"] = [ident(o) for o in ops]
@@ -128,6 +152,8 @@ def replay_history(fa, hist, events, beh, ctx_kwargs=None):
         if r is not None:
             ev["res"] = ident(r)
             ev["obs"] = observe(fa, r, ident, vident)
+            if kind not in ("symbol", "constant"):
+                ev["ty"] = _type_name(r)      # the reference type this node has when it is used as a like
             by_model.setdefault(mres, r)
         else:
             ev["obs"] = dict(kind="", name="", ty="", ops=[], val=dict(pt="", re=[], im=[], s="", nan=False, obj=0), like_ty="")
@@ -301,6 +327,27 @@ def pair_histories(seed, k, chk):
                 hs.append([sym("x", symty, 1), const(first, 1, 2), const(second, 1, 3), const(first, 1, 2),
                            op("multiply", [1, 2], 4), op("multiply", [1, 3], 5), op("subtract", [5, 4], 6)])
                 meta.append((fam, ty))
+    # the same confusable pairs as RAW operands (Python numbers are turned into constants by the package)
+    def opnum(kind, rawops, res):
+        return dict(req=dict(kind=kind, name="", ty="", value=nov, like=0, ops=[], rawops=rawops), res=res)
+
+    nraw = 0
+    for fam, ty in sorted(shapes):
+        if ty not in ("float", "int", "complex", "bool", "float64"):
+            continue      # expr.normalize converts int/float/complex (and their subclasses) only
+        for a, b in make_pairs(fam, ty, max(2, k // 2), rng):
+            if not all(isinstance(v, (int, float, complex)) for v in (a, b)):
+                continue
+            symty = {"float": "float64", "int": "float64", "complex": "complex128", "bool": "float64"}.get(ty, ty)
+            for first, second in ((a, b), (b, a)):
+                hs.append([sym("x", symty, 1),
+                           opnum("multiply", [("id", 1), ("raw", first)], 2), opnum("multiply", [("id", 1), ("raw", second)], 3),
+                           opnum("copysign", [("id", 1), ("raw", first)], 4), opnum("copysign", [("id", 1), ("raw", second)], 5),
+                           opnum("subtract", [("raw", first), ("id", 1)], 6), opnum("subtract", [("raw", second), ("id", 1)], 7),
+                           const(first, 1, 8), const(second, 1, 9), opnum("multiply", [("id", 1), ("raw", first)], 2)])
+                meta.append((fam, ty))
+                nraw += 1
+    chk.cov["value_pair_raw_operand_histories"] = nraw
     chk.cov["value_pair_shapes"] = len(shapes)
     chk.cov["value_pair_histories"] = len(hs)
     return hs
@@ -311,6 +358,9 @@ def portable(hist):
     out = []
     for h in hist:
         req = dict(h["req"])
+        if "rawops" in req:
+            req["rawops"] = [list(o) if o[0] == "id" else ["raw", [type(o[1]).__name__, repr(o[1]), o[1].hex() if isinstance(o[1], float) else repr(o[1])]]
+                             for o in req["rawops"]]
         if "pyvalue" in req:
             v = req.pop("pyvalue")
             req["pyvalue_repr"] = [type(v).__name__, repr(v), v.hex() if isinstance(v, float) else (hex(int(numpy.asarray(v).view("u%d" % numpy.asarray(v).itemsize))) if isinstance(v, numpy.floating) else repr(v))]
@@ -322,6 +372,14 @@ def unportable(hist):
     out = []
     for h in hist:
         req = dict(h["req"])
+        if "rawops" in req:
+            def back(o):
+                if o[0] == "id":
+                    return ("id", o[1])
+                tn, rp, hx = o[1]
+                return ("raw", float.fromhex(hx) if tn == "float" else numpy.float64(float.fromhex(hx)) if tn == "float64" else
+                        int(rp) if tn == "int" else (rp == "True") if tn == "bool" else complex(rp))
+            req["rawops"] = [back(o) for o in req["rawops"]]
         if "pyvalue_repr" in req:
             tn, rp, hx = req.pop("pyvalue_repr")
             if tn == "float":
